@@ -109,7 +109,7 @@ theorem foldl_sub_spec (acked : List Rg) : ∀ (u : RS), WF u → (∀ a ∈ ack
   | cons a rest ih =>
     intro u hu hne
     have ha : a.s < a.e := hne a (by simp)
-    have hw := wf_sub u a.s a.e hu ha
+    have hw := wf_sub u a.s a.e hu (by omega)
     have := ih (Rangeset.sub u a.s a.e) hw (fun r hr => hne r (by simp [hr]))
     simp only [List.foldl_cons]
     refine ⟨this.1, ?_⟩
@@ -185,7 +185,7 @@ theorem flushLocked_adds (s : Stream) (hu : WF s.outunsent) (hfl : s.outflushed 
     constructor
     · rintro (h | h)
       · left; exact h
-      · right; exact ⟨h.1, h.2, h1⟩
+      · right; simp only [h1, and_true]; exact ⟨h.1, h.2⟩
     · rintro (h | h)
       · left; exact h
       · right; exact ⟨h.1, h.2.1⟩
@@ -194,7 +194,7 @@ theorem flushLocked_adds (s : Stream) (hu : WF s.outunsent) (hfl : s.outflushed 
     · intro h; left; exact h
     · rintro (h | h)
       · exact h
-      · exact absurd h.2.2 h1
+      · simp [h1] at h
 
 /-! ### monitor -/
 section Monitor
@@ -319,7 +319,7 @@ theorem monitor_sound (tr : List Ev) (h : accepts 19 tr = true) :
         ((written pre s id).length = 0 ∨
           Rangeset.isrange (rxSet pre (peer s) id) 0 (written pre s id).length = true)) ∧
     (∀ pre suf, tr = pre ++ .fin :: suf → deliveredAll pre 0 = true ∧ deliveredAll pre 1 = true) ∧
-    (∀ pre suf s id off len fin, tr = pre ++ .txStream s id off len fin :: suf →
+    (∀ pre suf s id (off len : Int) fin, tr = pre ++ .txStream s id off len fin :: suf →
         off + len ≤ (written pre s id).length ∧
         (fin = true → wclosed pre s id = true ∧ off + len = (written pre s id).length)) := by
   have hall := (NetVerif.Proofs.Lemmas.QuicMonitor.accepts_iff 19 tr).1 h
@@ -332,7 +332,7 @@ theorem monitor_sound (tr : List Ev) (h : accepts 19 tr = true) :
     have := hall pre _ suf heq
     simp only [okEv] at this
     simp at this
-    exact ⟨this.1.1, this.1.2, this.2⟩
+    exact ⟨this.1.1, this.1.2, this.2.imp (fun h => by simp [h]) (fun h => h)⟩
   · intro pre suf heq
     have := hall pre _ suf heq
     simp only [okEv] at this
@@ -341,11 +341,12 @@ theorem monitor_sound (tr : List Ev) (h : accepts 19 tr = true) :
     have := hall pre _ suf heq
     simp only [okEv] at this
     simp at this
-    refine ⟨this.2.1, ?_⟩
+    obtain ⟨h1, h2⟩ := this
+    refine ⟨h1.2, ?_⟩
     intro hf
-    have h2 := this.2.2
-    simp [hf] at h2
-    exact h2
+    rcases h2 with h2 | h2
+    · simp [hf] at h2
+    · exact h2
 
 /-- non-vacuity: a complete little transfer with a retransmission is accepted … -/
 example : accepts 19
